@@ -57,9 +57,10 @@ TRACE_NOTE = ("bounded: exhaustive only within the stated constants, seeded rand
 
 PROPERTIES = {
     "C04": {
-        "level_text": "TLC evaluates the TLA+ definition of right-aligned broadcasting (TensorCore!EW, BOK, BDims) on every one of the 14400 ordered shape pairs of rank 1..4 / sizes 1..3 and on random larger pairs, and the trace specification requires the real crate's result (dims and every element, bit for bit) or its refusal to equal it",
+        "level_text": "TLC evaluates the TLA+ definition of right-aligned broadcasting (TensorCore!EW, BOK, BDims) on every one of the 14400 ordered shape pairs of rank 1..4 / sizes 1..3 and on random larger pairs, and the trace specification requires the real crate's result (dims and every element, bit for bit) or its refusal to equal it; TLC also runs the crate's own walking algorithm (KernelImpl: sliced_op plan, odometer, slice offsets; flatten_to; Array::matmul shape derivation and matmul_slice - transcribed from the code as a state machine) on every call within a bound and checks that each finished run equals this definition and refuses exactly what it refuses (MC_Kernels: KernelRefines, RefusesExactly, Terminates)",
         "level_note": TRACE_NOTE,
         "technique": "TLA+ spec as exhaustive case oracle + TLC trace validation of executions of the real crate",
+        "mc": lambda tier: [mc("MC_Kernels_" + tier, module="MC_Kernels", workers=6), mc("MC_Kernels_neg1", module="MC_Kernels", workers=4, expect_violation="KernelRefines")],
         "families": lambda tier, seed: [
             {"name": "ew_pairs", "cases": FS.c04_cases(tier, seed), "exhaustive": True,
              "what": "all 14400 ordered shape pairs rank 1..4 sizes 1..3 (add on every pair; sub/mul/axpy/div on "
@@ -84,9 +85,10 @@ PROPERTIES = {
         "rule": "a case = one shape with its constructions, all of its indices, or one equality scenario; distinct by program hash",
     },
     "C07": {
-        "level_text": "TLC evaluates the TLA+ definitions of sum(k), sum_all, reshape (and its refusal) and the point-wise operations on all 120 shapes of rank 1..4 / sizes 1..3 with every k, every factorisation as reshape target and the listed scalar parameters; the trace specification requires the real crate's dims and values (bit for bit in the exact domain) to equal them; transcendental functions are judged through spec-generated symbolic definitions (real domain)",
+        "level_text": "TLC evaluates the TLA+ definitions of sum(k), sum_all, reshape (and its refusal) and the point-wise operations on all 120 shapes of rank 1..4 / sizes 1..3 with every k, every factorisation as reshape target and the listed scalar parameters; the trace specification requires the real crate's dims and values (bit for bit in the exact domain) to equal them; transcendental functions are judged through spec-generated symbolic definitions (real domain); TLC also runs the crate's own walking algorithm (KernelImpl: sliced_op plan, odometer, slice offsets; flatten_to; Array::matmul shape derivation and matmul_slice - transcribed from the code as a state machine) on every call within a bound and checks that each finished run equals this definition and refuses exactly what it refuses (MC_Kernels: KernelRefines, RefusesExactly, Terminates)",
         "level_note": TRACE_NOTE,
         "technique": "TLA+ spec as exhaustive case oracle + TLC trace validation of executions of the real crate",
+        "mc": lambda tier: [mc("MC_Kernels_" + tier, module="MC_Kernels", workers=6)],
         "families": lambda tier, seed: [
             {"name": "reduce_reshape_pointwise", "cases": FS.c07_cases(tier, seed), "exhaustive": True,
              "what": "all shapes rank<=4 sizes<=3 x sum(k) for every k, sum_all, reshape to every factorisation and to refused targets, neg/scale/powf(n)/reciprocal/relu on dyadic values",
@@ -101,9 +103,10 @@ PROPERTIES = {
         "rule": "a case = one shape with all reductions and point-wise operations, or one shape with its reshape targets; distinct by program hash",
     },
     "C05": {
-        "level_text": "TLC evaluates the TLA+ index-formula definition of the batched, optionally transposed matrix product with additive term (TensorCore!Matmul, MatmulShape) on an enumeration of (rows, inner, cols) in 1..3 x 4 flag pairs x 49 leading-dimension patterns x 7 additive-term forms, inner-dimension mismatches and the rank-1 forms; the trace specification requires the real crate's dims, every element (bit for bit) or refusal to equal it",
+        "level_text": "TLC evaluates the TLA+ index-formula definition of the batched, optionally transposed matrix product with additive term (TensorCore!Matmul, MatmulShape) on an enumeration of (rows, inner, cols) in 1..3 x 4 flag pairs x 49 leading-dimension patterns x 7 additive-term forms, inner-dimension mismatches and the rank-1 forms; the trace specification requires the real crate's dims, every element (bit for bit) or refusal to equal it; TLC also runs the crate's own walking algorithm (KernelImpl: sliced_op plan, odometer, slice offsets; flatten_to; Array::matmul shape derivation and matmul_slice - transcribed from the code as a state machine) on every call within a bound and checks that each finished run equals this definition and refuses exactly what it refuses (MC_Kernels: KernelRefines, RefusesExactly, Terminates)",
         "level_note": TRACE_NOTE + "; forms the property leaves undefined (two rank-1 operands with a flag, additive terms with leading dimensions) are never judged",
         "technique": "TLA+ spec as case oracle + TLC trace validation of executions of the real crate",
+        "mc": lambda tier: [mc("MC_Kernels_" + tier, module="MC_Kernels", workers=6)],
         "families": lambda tier, seed: [
             {"name": "matmul", "cases": FS.c05_cases(tier, seed),
              "what": "seeded sample of the 37044-point space sizes<=3 x flags x leading patterns x additive forms, all inner mismatches, rank-1 forms, random sizes up to 5",
@@ -112,9 +115,10 @@ PROPERTIES = {
         "rule": "a case = one operand-shape / flag / additive-term combination with position-coded integer values; distinct by program hash",
     },
     "C06": {
-        "level_text": "TLC evaluates the direct sliding-window definition of convolution (TensorCore!Conv, no im2col in the specification) over image sizes 1..5, depth 1..2, filter count 1..2, filters up to 3x3, both strides 1..3 independently and batch absent / 1 / 2 / 3 / [2,2]; the trace specification requires the real crate's dims and every element (bit for bit) to equal it",
+        "level_text": "TLC evaluates the direct sliding-window definition of convolution (TensorCore!Conv, no im2col in the specification) over image sizes 1..5, depth 1..2, filter count 1..2, filters up to 3x3, both strides 1..3 independently and batch absent / 1 / 2 / 3 / [2,2]; the trace specification requires the real crate's dims and every element (bit for bit) to equal it; TLC also checks (MC_Composite) that the operations the crate composes out of others - a-b, softmax, mse, cross-entropy, conv = expand_conv(matmul(unroll_blocks, reshape^T)), the layer bodies - equal the single-node definitions used here, forward value and chained gradient, and that the accumulating roll is the adjoint of unroll",
         "level_note": TRACE_NOTE + "; filters larger than the image and zero strides are not defined by the property and never judged",
-        "technique": "TLA+ spec as case oracle + TLC trace validation of executions of the real crate",
+        "technique": "TLA+ spec as case oracle (TLC also checks the code's im2col decomposition against it) + TLC trace validation of executions of the real crate",
+        "mc": lambda tier: [mc("MC_Composite_" + tier, module="MC_Composite", workers=6)],
         "families": lambda tier, seed: [
             {"name": "conv", "cases": FS.c06_cases(tier, seed),
              "what": "seeded sample of the enumerated space (image<=5x5, depth<=2, count<=2, filter<=3x3, strides 1..3, five batch forms), depth mismatches, random larger images",
@@ -123,10 +127,12 @@ PROPERTIES = {
         "rule": "a case = one image/filter/stride/batch combination with integer values; distinct by program hash",
     },
     "C02": {
-        "level_text": "TensorCore!Vjp defines the transpose-Jacobian of every operation from its forward definition (LinVjp: <seed, F(e_j)> on basis vectors for every operation linear in the differentiated operand; a table of scalar partials for the point-wise rest); TLC evaluates it for each operation x parameterisation x broadcast pattern x tracked subset with non-uniform (prime) seeds and the trace specification requires the gradients the real crate deposits to equal it bit for bit",
+        "level_text": "TensorCore!Vjp defines the transpose-Jacobian of every operation from its forward definition (LinVjp: <seed, F(e_j)> on basis vectors for every operation linear in the differentiated operand; a table of scalar partials for the point-wise rest); TLC evaluates it for each operation x parameterisation x broadcast pattern x tracked subset with non-uniform (prime) seeds and the trace specification requires the gradients the real crate deposits to equal it bit for bit; TLC also checks (MC_Composite) that the operations the crate composes out of others - a-b, softmax, mse, cross-entropy, conv = expand_conv(matmul(unroll_blocks, reshape^T)), the layer bodies - equal the single-node definitions used here, forward value and chained gradient, and that the accumulating roll is the adjoint of unroll",
         "level_note": TRACE_NOTE + "; transcendental operations (ln, exp, sigmoid, softmax, non-integer powf, general division) are judged in the real domain through spec-generated symbolic definitions",
         "technique": "TLA+ spec (definition-derived VJPs, checked against dual numbers by TLC) as case oracle + TLC trace validation of executions of the real crate",
-        "mc": lambda tier: [mc("MC_Rules_quick" if tier == "quick" else "MC_Rules_thorough", module="MC_Rules", workers=10)],
+        "mc": lambda tier: [mc("MC_Rules_quick" if tier == "quick" else "MC_Rules_thorough", module="MC_Rules", workers=10),
+                            mc("MC_Composite_" + tier, module="MC_Composite", workers=6),
+                            mc("MC_Composite_neg", module="MC_Composite", workers=2, expect_violation="NonAccumulatingRollAlsoRight")],
         "families": lambda tier, seed: [
             {"name": "single_op_vjp", "cases": FE.c02_cases(tier, seed),
              "what": "one operation per case, backward with a prime-valued seed, every deposited gradient compared: element-wise ops over broadcast pairs and tracked subsets, neg/scale/powf(-2..4)/reciprocal/relu/sum(k)/reshape, matmul (flags, additive term, leading patterns, rank-1 forms), conv (strides 1..3, batches), user operations",
@@ -181,10 +187,12 @@ PROPERTIES = {
         "rule": "a case = one program (graph construction + passes); distinct by program hash; non-trivial = contains at least one backward pass whose gradients are compared",
     },
     "C03": {
-        "level_text": "In the specification every contribution is the VJP on the operand's own dimensions (ReduceTo = sum over broadcast positions), GradShape/GradDims are invariants of the model-checked specs, and the trace specification requires dims and values of every stored gradient of broadcast operands used 1..3 times over 1..2 passes (and the parameters after a following update) to equal the specification's",
+        "level_text": "In the specification every contribution is the VJP on the operand's own dimensions (ReduceTo = sum over broadcast positions), GradShape/GradDims are invariants of the model-checked specs, and the trace specification requires dims and values of every stored gradient of broadcast operands used 1..3 times over 1..2 passes (and the parameters after a following update) to equal the specification's; TLC also runs the crate's own walking algorithm (KernelImpl: sliced_op plan, odometer, slice offsets; flatten_to; Array::matmul shape derivation and matmul_slice - transcribed from the code as a state machine) on every call within a bound and checks that each finished run equals this definition and refuses exactly what it refuses (MC_Kernels: KernelRefines, RefusesExactly, Terminates)",
         "level_note": ENGINE_NOTE,
         "technique": "TLC model checking (GradShape on AutodiffImpl with broadcast leaves) + TLC trace validation of enumerated broadcast programs on the real crate",
-        "mc": lambda tier: [mc("MC_Engine_bc" if tier == "quick" else "MC_Engine_t3bc")],
+        "mc": lambda tier: [mc("MC_Engine_bc" if tier == "quick" else "MC_Engine_t3bc"),
+                            mc("MC_Kernels_" + tier, module="MC_Kernels", workers=6),
+                            mc("MC_Kernels_neg2", module="MC_Kernels", workers=4, expect_violation="KernelRefines")],
         "families": lambda tier, seed: [
             {"name": "broadcast_uses", "cases": FE.c03_cases(tier, seed), "mask": M_GRAD | M_UPD,
              "what": "operand a broadcast to b's shape (all strictly-broadcast pairs rank<=3 sizes<=3, sampled in quick) used 1..3 times through add/sub/mul/axpy, 1..2 passes with prime seeds, then a two-parameter update; matmul additive terms over rows and batches",
@@ -301,6 +309,9 @@ PROPERTIES = {
             {"name": "ownership_real", "cases": FR.real_tracking_cases(tier, seed + 1), "spec": "TraceReal", "real": True, "mask": M_OWN,
              "what": "ln / exp / sigmoid / softmax / reciprocal / powf / division: after a pass with stored gradients and the drop of every result the operand is the sole owner of its buffer",
              "require": {"owned": 20}},
+            {"name": "nonfinite_loss", "cases": FR.real_nonfinite_loss_cases(tier, seed), "spec": "TraceReal", "real": True, "mask": M_OWN,
+             "what": "evaluation loops in which one iteration's loss is infinite or NaN: after the model has moved on, that iteration's input and target own their buffers again",
+             "require": {"owned": 20}},
             {"name": "training_loops", "cases": FM.c14_cases(tier, seed + 5), "mask": M_OWN,
              "what": "model loops: after the next forward the previous iteration's input and the clones of the old parameters must own their buffers again (nothing of the finished iteration is retained)",
              "require": {"owned": 100}},
@@ -315,6 +326,9 @@ PROPERTIES = {
         "families": lambda tier, seed: [
             {"name": "long_histories", "cases": FE.random_cases(seed + 11, 700 if tier == "quick" else 6000, nsteps=(10, 26), p_pass=0.25),
              "mask": M_IMM, "what": "long random histories keeping clones, views and fetched gradients alive across passes, clears and drops"},
+            {"name": "seed_views", "cases": FE.seed_view_cases(tier, seed), "mask": M_IMM | {"grad-value"},
+             "what": "seeds that are reshaped views of live arrays, reshaped views of fetched gradients and of the root, then repeated passes on the same root: storage shared with what the engine was handed or handed out is never written",
+             "require": {"passes": 300}},
             {"name": "broadcast_updates", "cases": FE.c03_cases("quick", seed + 1), "mask": M_IMM,
              "what": "passes followed by optimizer updates while older handles of the parameters stay alive"},
             tlc_family("tlc_histories", "GenEngine_hist", "C08", simulate=(150 if tier == "quick" else 1500, 20), seed=seed + 4, mask=M_IMM),
@@ -354,10 +368,11 @@ PROPERTIES = {
         "rule": "a case = one training run; distinct by program hash",
     },
     "C15": {
-        "level_text": "ModelAbs writes the documented formulas (dense = activation(x W^T + b), conv layer = activation(conv + b) with one bias per filter, model forward = composition, mse = (target-output)^2/count, backward value = sum of the cost array) over TensorCore; the trace specification validates Layer::forward for vectors, single rows and batches (and a refused input), conv layers with strides and batches, the cost closures, Model::forward against the layer-by-layer composition and Model::backward's return value on the real crate, bit for bit; MC_Rules checks the mse derivative rule against dual numbers",
+        "level_text": "ModelAbs writes the documented formulas (dense = activation(x W^T + b), conv layer = activation(conv + b) with one bias per filter, model forward = composition, mse = (target-output)^2/count, backward value = sum of the cost array) over TensorCore; the trace specification validates Layer::forward for vectors, single rows and batches (and a refused input), conv layers with strides and batches, the cost closures, Model::forward against the layer-by-layer composition and Model::backward's return value on the real crate, bit for bit; MC_Rules checks the mse derivative rule against dual numbers; TLC also checks (MC_Composite) that the operations the crate composes out of others - a-b, softmax, mse, cross-entropy, conv = expand_conv(matmul(unroll_blocks, reshape^T)), the layer bodies - equal the single-node definitions used here, forward value and chained gradient, and that the accumulating roll is the adjoint of unroll",
         "level_note": ENGINE_NOTE + "; sigmoid / softmax activations and cross-entropy are judged in the real domain",
         "technique": "TLA+ spec of the documented formulas as oracle + TLC trace validation of layers, costs and models of the real crate",
-        "mc": lambda tier: [mc("MC_Model_" + tier, module="MC_Model"), mc("MC_Rules_quick", module="MC_Rules")],
+        "mc": lambda tier: [mc("MC_Model_" + tier, module="MC_Model"), mc("MC_Rules_quick", module="MC_Rules"),
+                            mc("MC_Composite_" + tier, module="MC_Composite", workers=6)],
         "families": lambda tier, seed: [
             {"name": "layers_costs_models", "cases": FM.c15_cases(tier, seed),
              "mask": {"values", "dims", "loss", "expected-refusal", "unexpected-panic", "layer-parameter-dims", "equality", "tracked-flag"},
